@@ -156,8 +156,21 @@ def sv_keyword(rng):
 FLOAT_WORDS = ["inf", "nan", "Infinity", "NaN", "INF"]
 
 
+# Words that only LOOK like numbers, dates or times: their digits are not the
+# ASCII digits of the grammars (Python's int(), float(), strptime() and \d
+# take them all the same).  Only the permissive grammar admits the characters;
+# there they are unquoted strings.
+DIGIT_LOOKALIKES = ["\uff12\uff10\uff10\uff11-01-01", "1\uff12:00", "12:0\u0663:00Z",
+                    "12:00:0\u0660.5", "\u0663", "1\u0663", "1.\u0665", "\u00b2", "2001-00\u0661",
+                    "\uff11\uff12", "2001-01-0\u0661T12:00", "12:00+0\u0665", "\u0661\u0662:\u0660\u0660",
+                    "2001-\u0660\u0661-01", "\u0967\u0968", "1\u0967e5", "\u00bd", "\u2460", "23:59:6\u0660", "\uff0b5", "\u22125"]
+
+
 def sv_unquoted(rng, reader):
     pool = WORDS if reader in ("ODL", "PDS3") else PVL_WORDS
+    if reader == "default" and rng.random() < 0.07:
+        w = rng.choice(DIGIT_LOOKALIKES)
+        return w, w, "unquoted:digit-lookalike", False
     if rng.random() < 0.08:
         # identifiers that Python's float() would accept: the grammars class
         # them as unquoted strings / identifiers
